@@ -3,6 +3,8 @@
 // Free variables: renderer (R12: the Deref target SubRenderer), size_estimate.  The decorator may return ANY string (C16).
 // Imports width_minus under its proved contract (unit WM).
 use vstd::prelude::*;
+macro_rules! html_trace { ($($t:tt)*) => {} }
+macro_rules! html_trace_quiet { ($($t:tt)*) => {} }
 verus! {
 global size_of usize == 8;
 //@import WM
@@ -42,6 +44,8 @@ pub assume_specification [ i64::unsigned_abs ] (a: i64) -> (r: u64) ensures r ==
 pub assume_specification [ i64::saturating_add ] (a: i64, b: i64) -> (r: i64) ensures r == sat_add(a, b);
 pub assume_specification [ str::repeat ] (s: &str, n: usize) -> (r: String)
     ensures r@.len() == s@.len() * n, forall|i: int| 0 <= i < r@.len() ==> r@[i] == s@[i % (s@.len() as int)];
+// R13: the free function std::cmp::max on usize (the code uses it next to the method form)
+fn max(a: usize, b: usize) -> (r: usize) ensures r == maxn(a as nat, b as nat) { if a >= b { a } else { b } }
 // R6: format!("{: <width$}", "", width = n) and format!("{}{}", a, b)
 #[verifier::external_body]
 fn spaces_string(n: usize) -> (r: String) ensures r@ == spaces(n as nat) { unimplemented!() }
